@@ -33,7 +33,7 @@ BOUNDS = {
     "quick": "72 states; 5 vectors x 3 tags; orbit2frame on 24 states x 3 orientations x {fixed, propagated} x 2 dates; dkep2dv: 4 orbits x 245 increments "
     "(+ 5 positions for pure da); KeplerNum: {euler, rk4, dopri54} x 60 s x 24 steps, 3 date kinds x 3 tags x 4 vectors single impulses, all ordered pairs and "
     "a set of triples of a 6-maneuver alphabet; continuous burns: 5 windows x 3 tags x 3 methods",
-    "thorough": "as quick with steps {15, 60, 120} s, rkf54 added, all ordered triples of the 6-maneuver alphabet, orbit2frame on all 72 states",
+    "thorough": "as quick with steps {15, 60, 120} s, rkf54 added, all ordered triples of the 6-maneuver alphabet, orbit2frame on all 72 states, dkep2dv on 6 orbits",
 }
 ASSUMPTIONS = [
     "matrix tolerance 64 eps / cos(flight path angle) (conditioning of the normalised cross product)",
@@ -303,7 +303,11 @@ KORBITS = {  # a, e, i, Omega, omega
     "ecc": (1.0e7, 0.3, math.radians(63.4), 2.0, 1.2),
     "geo": (4.2164e7, 5e-4, math.radians(5.0), 0.3, 2.0),
     "retro": (7.5e6, 0.05, math.radians(120.0), 4.0, 5.0),
+    # thorough tier only
+    "polar": (7.2e6, 0.01, math.radians(90.0), 0.5, 1.0),
+    "heo": (2.0e7, 0.6, math.radians(40.0), 1.0, 3.0),
 }
+KQUICK = ["leo", "ecc", "geo", "retro"]
 DA = [0.0, 1.0, 10.0, 1e3, 1e5]
 DANG = [0.0, 1e-6, -1e-6, 1e-3, -1e-3, 0.1, -0.1]
 NUS = [0.0, 1.0, 2.5, math.pi, 4.5]
@@ -638,7 +642,7 @@ def units(tier, seed):
     fc = [dict(part="F", state=s, orient=o, moving=m) for s in fsts for o in TAGS for m in (False, True)]
     for i in range(0, len(fc), 24):
         u.append((cfg, dict(part="F", cases=fc[i : i + 24])))
-    for oname in KORBITS:
+    for oname in (KQUICK if tier == "quick" else list(KORBITS)):
         kc = [dict(part="K", orbit=oname, da=da, di=di, dO=dO) for da in DA for di in DANG for dO in DANG]
         for i in range(0, len(kc), 62):
             u.append((cfg, dict(part="K", cases=kc[i : i + 62])))
